@@ -1043,3 +1043,129 @@ func ruleParseKey(c *Ctx, r *R) {
 	r.check(bad == "", "key-or-error", c.Pos(fn.Pos()), "every path that leaves the key empty reports an error",
 		"parseObjectPropertyKey can return an empty key without reporting an error (path through "+bad+"): a punctuator or an illegal token is swallowed as a property named \"\" - `({+: 1})` and `({/: 1})` parse")
 }
+
+// ---- ASI-token-flag -------------------------------------------------------------------------------------------------------
+
+func init() {
+	register(&Rule{ID: "ASI-token-flag", Props: []string{"C03"}, Min: 5,
+		Doc: "P (must-store per token): the scanner's insertSemicolon flag says whether the token just returned may end a statement; skipWhiteSpace consults it at the next line terminator (ES5 7.9.1). It is a property of the token returned, so every return of scan must be preceded, on every path from the start of the scanning iteration, by a store to the flag - a return that leaves it untouched hands the next line terminator the flag of the *previous* token (`a = .5<LF>b = 1` is parsed as one statement when the `.5` path forgets the store). The only returns exempt are those of reserved words, whose token comes from token.IsKeyword (a keyword never ends a statement; the dot-member case is ASI-dotmember's)",
+		Run: ruleAsiTokenFlag})
+}
+
+func ruleAsiTokenFlag(c *Ctx, r *R) {
+	var scan *ssa.Function
+	for _, fn := range c.AllSrcFuncs("parser") {
+		if fn.Name() == "scan" && fn.Signature.Recv() != nil && typeIs(fn.Signature.Recv().Type(), ottoPath+"/parser", "parser") {
+			scan = fn
+		}
+	}
+	if scan == nil {
+		r.undecided("unresolved:scan", "-", "UNRESOLVED: (*parser).scan")
+		return
+	}
+	// the start of an iteration: the block that calls skipWhiteSpace
+	var start *ssa.BasicBlock
+	for _, b := range scan.Blocks {
+		for _, ins := range b.Instrs {
+			if call, ok := ins.(*ssa.Call); ok && call.Call.StaticCallee() != nil && call.Call.StaticCallee().Name() == "skipWhiteSpace" {
+				start = b
+			}
+		}
+	}
+	if start == nil {
+		r.undecided("unresolved:iteration", c.Pos(scan.Pos()), "UNRESOLVED: scan does not call skipWhiteSpace")
+		return
+	}
+	isFlagStore := func(i ssa.Instruction) bool {
+		st, ok := i.(*ssa.Store)
+		return ok && isFieldAddr(st.Addr, "parser", "insertSemicolon")
+	}
+	fromKeyword := func(v ssa.Value) bool {
+		seen := map[ssa.Value]bool{}
+		var walk func(v ssa.Value) bool
+		walk = func(v ssa.Value) bool {
+			if seen[v] {
+				return false
+			}
+			seen[v] = true
+			switch x := v.(type) {
+			case *ssa.Extract:
+				if call, ok := x.Tuple.(*ssa.Call); ok && call.Call.StaticCallee() != nil && call.Call.StaticCallee().Name() == "IsKeyword" {
+					return true
+				}
+			case *ssa.Phi:
+				for _, e := range x.Edges {
+					if walk(e) {
+						return true
+					}
+				}
+			case *ssa.Const:
+				// token.KEYWORD itself
+				if n, ok := constInt(x); ok {
+					if kw := c.Pkg("token").Types.Scope().Lookup("KEYWORD"); kw != nil {
+						if kc, ok := kw.(*types.Const); ok {
+							if kv, ok2 := constantInt64(kc); ok2 && kv == n {
+								return true
+							}
+						}
+					}
+				}
+			}
+			return false
+		}
+		return walk(v)
+	}
+	n, ord := 0, 0
+	for _, b := range scan.Blocks {
+		ret, ok := b.Instrs[len(b.Instrs)-1].(*ssa.Return)
+		if !ok || len(ret.Results) == 0 {
+			continue
+		}
+		n++
+		ord++
+		key := fmt.Sprintf("return#%d", ord)
+		if k, ok := constInt(ret.Results[0]); ok {
+			if nt, ok := ret.Results[0].Type().(*types.Named); ok {
+				if name := tokenNameOf(nt, k); name != "" {
+					key = "return:" + name
+				}
+			}
+		}
+		if fromKeyword(ret.Results[0]) {
+			r.ok(key+":keyword", c.Pos(ret.Pos()), "returns a reserved word: exempt")
+			continue
+		}
+		// path from start to this return without a flag store
+		seen := map[*ssa.BasicBlock]bool{}
+		var dfs func(x *ssa.BasicBlock, first bool) bool
+		dfs = func(x *ssa.BasicBlock, first bool) bool {
+			if seen[x] && !first {
+				return false
+			}
+			seen[x] = true
+			for _, ins := range x.Instrs {
+				if ins == ssa.Instruction(ret) {
+					return true
+				}
+				if isFlagStore(ins) {
+					return false
+				}
+			}
+			for _, s := range x.Succs {
+				if s == start {
+					continue // next iteration: a new token
+				}
+				if dfs(s, false) {
+					return true
+				}
+			}
+			return false
+		}
+		stale := dfs(start, true)
+		r.check(!stale, key, c.Pos(ret.Pos()), "the flag is stored on every path of the iteration that ends in this return",
+			fmt.Sprintf("scan can return (at %s) without having stored insertSemicolon in this iteration: the flag of the previous token decides whether the next line terminator ends the statement (`a = .5<LF>b = 1` becomes one statement if the `.5` path leaves it unset)", c.Pos(ret.Pos())))
+	}
+	if n < 3 {
+		r.undecided("unresolved:returns", c.Pos(scan.Pos()), fmt.Sprintf("UNRESOLVED: scan has %d returns", n))
+	}
+}
